@@ -16,6 +16,7 @@
 //                   O EXC <class> <what>     calculate_masses() or an evaluation threw
 //                   O PROBLEM <string>       (only if force were set; not used)
 //   osf <nfam> <nk> <mode> then nfam x (1 + nk) x 35 doubles: re-used objects, see do_osf(); same O lines
+//   spec <n> then n x 40 doubles: public spectrum entry points of MSSMNoFV_onshell, see do_spec(); T / X lines
 //   END <ncases>
 #include "covsig.hpp"
 #include "gm2calc/MSSMNoFV_onshell.hpp"
@@ -377,6 +378,60 @@ static void do_osf(long nfam, long nk, int mode) {
    }
 }
 
+// ---------------------------------------------------------------- public spectrum entry points (C04)
+// spec <n> then n x 40 doubles: OP (35; spare[0] = mode) + initial values (ml2(1,1), me2(1,1), Mu, M1, M2;
+// nan = keep the on-shell value).
+//   mode 0 (GM2Calc-type): setup + calculate_masses()
+//   mode 1 (SLHA-type): a GM2Calc-type model of the same point is evaluated first and its pole masses
+//          (MSvmL, MSm, MChi, MCha; MA0) are given to a new model whose DR-bar input is the same point with
+//          the entries the conversion overwrites set to the initial values; convert_to_onshell(1e-8, 1000).
+// force_output is always set.  Per case three lines in the format of `tree` (final Lagrangian parameters, the
+// DR-bar spectrum and get_problems() AFTER the call, all from the public getters):
+//   run 1: fresh object, run 2: another fresh object, run 3: the object of run 1 with all inputs set again and
+//   the entry point called a second time.      "X <what>" replaces a line if an exception escapes.
+static const int NSP = NOP + 5;
+
+static void setup_entry(MSSMNoFV_onshell& m, const OP& p, const double* init, const MSSMNoFV_onshell_physical* pole) {
+   setup_os(m, p);
+   m.do_force_output(true);
+   if (pole) {
+      m.get_physical().MSvmL = pole->MSvmL; m.get_physical().MSm = pole->MSm;
+      m.get_physical().MChi = pole->MChi; m.get_physical().MCha = pole->MCha;
+      if (!std::isnan(init[0])) m.set_ml2(1, 1, init[0]);
+      if (!std::isnan(init[1])) m.set_me2(1, 1, init[1]);
+      if (!std::isnan(init[2])) m.set_Mu(init[2]);
+      if (!std::isnan(init[3])) m.set_MassB(init[3]);
+      if (!std::isnan(init[4])) m.set_MassWB(init[4]);
+   }
+}
+
+static void emit_entry(MSSMNoFV_onshell& m, bool slha) {
+   try {
+      if (slha) m.convert_to_onshell(1e-8, 1000); else m.calculate_masses();
+      Out o; dump_tree(m, o);
+      std::printf("T %016" PRIx64, uint64_t(0)); o.print_values();
+      std::printf(" | %s | GX 0 %s\n", m.get_problems().get_problems().c_str(), m.get_problems().have_warning() ? "W" : "-");
+   } catch (const std::exception& e) { std::printf("X %s\n", oneline(e.what()).c_str()); }
+}
+
+static void do_spec(long n) {
+   for (long c = 0; c < n; c++) {
+      double raw[NSP]; for (int i = 0; i < NSP; i++) raw[i] = rd();
+      OP p; std::memcpy(&p, raw, sizeof p);
+      const double* init = raw + NOP;
+      const bool slha = p.spare[0] != 0;
+      MSSMNoFV_onshell_physical pole; bool have_pole = false;
+      if (slha) {
+         try { MSSMNoFV_onshell g; setup_os(g, p); g.do_force_output(true); g.calculate_masses(); pole = g.get_physical(); have_pole = true; }
+         catch (const std::exception& e) { for (int k = 0; k < 3; k++) std::printf("X generating point: %s\n", oneline(e.what()).c_str()); continue; }
+      }
+      const MSSMNoFV_onshell_physical* pp = have_pole ? &pole : nullptr;
+      MSSMNoFV_onshell m1; setup_entry(m1, p, init, pp); emit_entry(m1, slha);
+      MSSMNoFV_onshell m2; setup_entry(m2, p, init, pp); emit_entry(m2, slha);
+      setup_entry(m1, p, init, pp); emit_entry(m1, slha);
+   }
+}
+
 static void do_names() {
    {  // tree layout
       TP p; std::memset(&p, 0, sizeof p); p.g1 = 0.46; p.g2 = 0.65; p.vd = 24; p.vu = 240; p.Mu = 300; p.BMu = 1e4; p.M1 = 100; p.M2 = 200; p.M3 = 1000;
@@ -402,6 +457,7 @@ int main() {
       else if (cmd == "tree") { std::cin >> n; do_tree(n); }
       else if (cmd == "tsig") { std::cin >> n; do_tsig(n); }
       else if (cmd == "os") { std::cin >> n; do_os(n); }
+      else if (cmd == "spec") { std::cin >> n; do_spec(n); }
       else if (cmd == "osf") { long nk; int mode; std::cin >> n >> nk >> mode; do_osf(n, nk, mode); }
       else { std::printf("ERR cmd %s\n", cmd.c_str()); return 2; }
       std::printf("END %ld\n", n); std::fflush(stdout);
